@@ -40,6 +40,7 @@ pub struct Emitter {
     tags: BTreeMap<String, u64>,
     kinds: BTreeMap<String, u64>,
     samples: Vec<String>,
+    aux: BTreeMap<String, Vec<String>>,
 }
 
 impl Emitter {
@@ -51,6 +52,7 @@ impl Emitter {
             tags: BTreeMap::new(),
             kinds: BTreeMap::new(),
             samples: vec![],
+            aux: BTreeMap::new(),
         }
     }
     /// Record one case with the implementation's outcome.
@@ -75,8 +77,15 @@ impl Emitter {
         writeln!(self.out, "{line}").unwrap();
         self.n += 1;
     }
+    /// Side channel for post-checks (e.g. the RFC 8032 oracle): lines of `<dir>/<name>`.
+    pub fn aux(&mut self, name: &str, line: String) {
+        self.aux.entry(name.to_owned()).or_default().push(line);
+    }
     fn finish(mut self, dir: &str) {
         self.out.flush().unwrap();
+        for (name, lines) in &self.aux {
+            std::fs::write(format!("{dir}/{name}"), lines.join("\n") + "\n").unwrap();
+        }
         let stats = serde_json::json!({
             "cases": self.n, "by_tag": self.tags, "by_outcome": self.kinds, "samples": self.samples,
         });
